@@ -341,7 +341,8 @@ pub fn run_case(ctx: &Ctx, c: &C15Case, n: u64) -> Verdict {
                     if let Ok(rd) = std::fs::read_dir(&p) {
                         for ch in rd.filter_map(|e| e.ok()) {
                             let name = crate::run::os_bytes(&ch.file_name());
-                            if !returned.contains(&name) {
+                            // (ignore files are looked up by name, not through the listing)
+                            if !returned.contains(&name) && name != b".gitignore" && name != b".fdignore" {
                                 lost.push(ch.path());
                             }
                         }
@@ -539,7 +540,22 @@ pub fn run_case(ctx: &Ctx, c: &C15Case, n: u64) -> Verdict {
 fn walk_case_strategy() -> BoxedStrategy<C15Case> {
     (1usize..=2)
         .prop_flat_map(|roots| {
-            (crate::props::c09::tree_s(roots, true), proptest::collection::vec(0u16..u16::MAX, 4), prop::bool::weighted(0.3), prop::bool::weighted(0.3)).prop_map(move |(tree, pair_seeds, sl, hidden)| {
+            (crate::props::c09::tree_s(roots, true), proptest::collection::vec(0u16..u16::MAX, 4), prop::bool::weighted(0.3), prop::bool::weighted(0.3)).prop_map(move |(mut tree, pair_seeds, sl, hidden)| {
+                // two levels of ignore files by construction: rules in the first root that match names used
+                // deeper in the tree, and an ignore file in each of its sub-directories that has entries
+                let is_ignore = |e: &Entry| e.path.last().map(|n| n.0 == b".gitignore" || n.0 == b".fdignore").unwrap_or(false);
+                let subdirs: std::collections::BTreeSet<Vec<u8>> =
+                    tree.entries.iter().filter(|e| e.path.len() >= 3 && e.path[0].0 == b"r0" && !is_ignore(e)).map(|e| e.path[1].0.clone()).collect();
+                tree.entries.retain(|e| !(is_ignore(e) && e.path[0].0 == b"r0" && e.path.len() <= 3));
+                let mut extra = vec![Entry { path: vec![B::s("r0"), B::s(".gitignore")], kind: Kind::Literal(B(b"a\nb\n*.txt\n".to_vec())), mtime: 0 }];
+                for (i, d) in subdirs.iter().take(3).enumerate() {
+                    extra.push(Entry { path: vec![B::s("r0"), B(d.clone()), B::s(if i % 2 == 0 { ".fdignore" } else { ".gitignore" })], kind: Kind::Literal(B(b"c\nv-1\n".to_vec())), mtime: 0 });
+                }
+                // after the root directories, before everything else
+                let at = tree.entries.iter().position(|e| e.path.len() > 1).unwrap_or(tree.entries.len());
+                for (k, e) in extra.into_iter().enumerate() {
+                    tree.entries.insert(at + k, e);
+                }
                 let mut opts = GOpts::default();
                 opts.symbolic_links = sl;
                 opts.min0 = hidden;
